@@ -32,6 +32,13 @@ def ini_for(out, okind, fmt):
     return gen.render_ini([(b"output", val), (b"message_format", fmt.encode())])
 
 
+def reconf_ini(out, okind):
+    """configuration Y, written while the other threads are mid-call under X: same output, but NO message_format line any more"""
+    o = out.encode()
+    val = {"file": b"file:" + o + b"/log", "devlog": b"devlog", "stdout": b"stdout", "devnull": b"devnull", "socket": b"socket:" + o + b"/sock"}[okind]
+    return gen.render_ini([(b"output", val)])
+
+
 def run_case(d, c):
     """c: dict(okind, fmt, k, depth, real[, naux, auxk, warm]).  Returns (events_total, parked) ; raises Failure.
     depth 1: the child makes the call; 2: the child forks and the grandchild makes it; 3: the child makes a (failing) call, forks,
@@ -42,15 +49,17 @@ def run_case(d, c):
     child_path = drv.ARGDUMP.encode() if c["real"] else b"/bin/child"
     ops = [drv.op("x", out + "/log"), drv.op("S", 0, "pty")] + gen.std_sinks(out)[:5] + [drv.op("C", ini_for(out, c["okind"], c["fmt"]))] + \
           ([drv.op_exec("e", b"/bin/warm", [b"warmup"], [], ret=-1, err=2)] if warm else []) + [
-                                                                   drv.op("J", c["k"], c["depth"], naux, c.get("auxk", 0)),
+                                                                   drv.op("J", c["k"], c["depth"], naux, c.get("auxk", 0),
+                                                                          reconf_ini(out, c["okind"]) if c.get("reconf") else b""),
                                                                    drv.op_exec("e", b"/bin/B", [b"thread-B-call"], [], ret=-1, err=2, tno=0, callno=0),
                                                                    drv.op_exec("v" if c["depth"] == 2 else "e", child_path, [b"child-call"], [b"C=1"], ret=-1, err=2, real=c["real"]),
                                                                    drv.op_exec("e", b"/bin/P", [b"parent-after"], [], ret=-1, err=2),
                                                                    drv.op("L"), drv.op("G")]
     res = d.scenario(ops)
     reports = d.sanitizer_reports()
-    what = "output %s, format %r, fork with second thread parked after event k=%d%s%s, depth %d, %s exec in the child" % (
+    what = "output %s, format %r, fork with second thread parked after event k=%d%s%s%s, depth %d, %s exec in the child" % (
         c["okind"], c["fmt"], c["k"], " and %d more threads inside their calls" % naux if naux else "", "" if warm else " of the process's first call",
+        ", configuration file rewritten (message_format line removed) right before the fork" if c.get("reconf") else "",
         c["depth"], "real" if c["real"] else "failing")
     J = res.of("j")
     if res.timedout or not J:
@@ -101,6 +110,13 @@ def run_case(d, c):
     if lines is not None:
         if c["real"] and c["okind"] in ("devlog", "socket"):
             pass   # datagrams sent by the child before exec are drained by whoever reads first; counted below leniently
+        if c.get("reconf"):
+            # calls that START after the file changed (the child's, the parent's next one) follow the new file: the default format,
+            # not the "XCFG" format that was in force when the fork happened
+            for l in lines:
+                if (l.endswith(b"child-call") or l.endswith(b"parent-after")) and b"XCFG" in l:
+                    raise Failure("a call made after the configuration file was rewritten still uses an option of the old file (%s)" % what,
+                                  {"record": l[:200]}, key="stale-config")
         for tag, cnt in ((b"warmup", 1 if warm else 0), (b"thread-B-call", 1 + naux), (b"child-call", nchild), (b"parent-after", 1)):
             n = sum(1 for l in lines if l.endswith(tag))
             if n != cnt and not (c["real"] and tag == b"child-call" and c["okind"] in ("devlog", "socket", "stdout") and n <= 1):
@@ -278,8 +294,9 @@ def worker(args):
         okind, fmt, depth, real = job[:4]
         opt = job[4] if len(job) > 4 else {}
         naux, warm, variant = opt.get("naux", 0), opt.get("warm", True), opt.get("variant", "ts-plain")
+        reconf = opt.get("reconf", False)
         d = driver(variant)
-        base = {"okind": okind, "fmt": fmt, "depth": depth, "real": real, "naux": 0, "auxk": 0, "warm": warm, "variant": variant}
+        base = {"okind": okind, "fmt": fmt, "depth": depth, "real": real, "naux": 0, "auxk": 0, "warm": warm, "variant": variant, "reconf": reconf}
         # dry run: how many lock/unlock events does the call have?
         try:
             events, _ = run_case(d, dict(base, k=0))
@@ -298,7 +315,8 @@ def worker(args):
                 ev2, parked = run_case(d, c)
                 local.count((k, okind, fmt, depth, real, naux, warm, variant) if parked else None,
                             ["out:" + okind, "depth:%d" % depth, "real" if real else "failing", "parked" if parked else "not-parked", "build:" + variant] +
-                            (["more-threads-inside:%d" % naux] if naux else []) + ([] if warm else ["first-call-of-process"]), sample=c)
+                            (["more-threads-inside:%d" % naux] if naux else []) + ([] if warm else ["first-call-of-process"]) +
+                            (["config-rewritten-before-fork"] if reconf else []), sample=c)
             except Skip:
                 local.count(None, ["skipped:aux-not-parked"])
             except Inconclusive as e:
@@ -371,6 +389,11 @@ def main():
         if not ctx.quick:
             jobs.append((okind, fmt, 3, False, {"naux": 3}))
             jobs.append((okind, fmt, 2, False, {"naux": 1, "warm": False, "variant": "ts-asan"}))
+    # the configuration file changes while other threads are mid-call: the child's call sees the new file only
+    for okind in ("file", "stdout") if ctx.quick else ("file", "stdout", "socket", "devlog"):
+        jobs.append((okind, "XCFG %{cmdline}", 1, False, {"reconf": True, "naux": 1}))
+        if not ctx.quick:
+            jobs.append((okind, "XCFG %{snoopy_threads} %{cmdline}", 2, False, {"reconf": True, "naux": 2, "variant": "ts-asan"}))
     jobs.sort(key=lambda j: -len(j[1]))
     if not ctx.quick:
         rng = random.Random(ctx.seed)
